@@ -301,7 +301,7 @@ def _amp(fam, a):
 
 def run(ctx, pid, direction):
     rng = np.random.default_rng(ctx.seed)
-    pr = vlib.coq_props(pid)
+    pr = vlib.coq_props(pid, translators=['formulas_basis'])   # exact-on-span theorems are about the regenerated daun formulas
     ctx.cov.update(theorems=pr['theorems'], axioms=pr['axioms'],
                    checker_cmd='make -C /verif/coq props/%s.vo (coqc 8.16.1, full .vo build) + Print Assumptions; '
                                'coqc cases/%s_oracle_*.v (Interval goals)' % (pid, pid))
